@@ -21,6 +21,7 @@ INJECT_PARENTS = {
     "boxed_monty_form": "modular/boxed_monty_form.rs",
     "boxed_pow": "modular/boxed_monty_form/pow.rs",
     "safegcd": "modular/safegcd.rs",
+    "safegcd_boxed": "modular/safegcd/boxed.rs",
     "encoding": "uint/encoding.rs",
     "uint_mul": "uint/mul.rs",
     "uint": "uint.rs",
